@@ -366,6 +366,7 @@ func (vc *VC) execUnOp(x *ssa.UnOp, st *State) {
 		v := vc.fresh("recv", vc.d.sortOf(et))
 		vc.assumeRange(v, et, st, "")
 		vc.chanInvRecv(x.X, v, et, st)
+		vc.timerFired(x.X, st, "true")
 		if x.CommaOk {
 			vc.tuples[x] = []string{v, vc.fresh("recvok", "Bool")}
 		} else {
@@ -1322,6 +1323,44 @@ func (vc *VC) execSelect(x *ssa.Select, st *State) {
 		}
 	}
 	vc.tuples[x] = tup
+	for i, s := range x.States {
+		if s.Dir == types.RecvOnly {
+			vc.timerFired(s.Chan, st, fmt.Sprintf("(= %s %d)", idx, i))
+		}
+	}
+}
+
+// timerFired: receiving from the channel C of a *time.Timer means that the timer fired, after which it is no longer
+// armed (ghost gTimerArmed of contracts/trusted/time.contracts, if that ghost is declared).
+func (vc *VC) timerFired(ch ssa.Value, st *State, cond string) {
+	if _, ok := vc.w.ghosts["gTimerArmed"]; !ok {
+		return
+	}
+	u, ok := ch.(*ssa.UnOp)
+	if !ok || u.Op != token.MUL {
+		return
+	}
+	fa, ok := u.X.(*ssa.FieldAddr)
+	if !ok || fieldName(fa) != "C" {
+		return
+	}
+	pt, ok := fa.X.Type().Underlying().(*types.Pointer)
+	if !ok {
+		return
+	}
+	named, ok := pt.Elem().(*types.Named)
+	if !ok || named.Obj().Pkg() == nil || named.Obj().Pkg().Path() != "time" || named.Obj().Name() != "Timer" {
+		return
+	}
+	srt := "(Array Int Bool)"
+	h := vc.heap(st, "GH.gTimerArmed", srt)
+	t := vc.val(fa.X)
+	vc.noteWrite(st, "GH.gTimerArmed", t)
+	if cond == "true" {
+		vc.setHeap(st, "GH.gTimerArmed", srt, fmt.Sprintf("(store %s %s false)", h, t))
+	} else {
+		vc.setHeap(st, "GH.gTimerArmed", srt, fmt.Sprintf("(ite %s (store %s %s false) %s)", cond, h, t, h))
+	}
 }
 
 // chanInvOf finds the invariant of the channel held in a struct field: the channel value must be a direct load of
